@@ -12,10 +12,10 @@ from mc.result import Result
 PROPERTY = 'C19'
 LEVEL = 'model_checking'
 CHUNK = 8
-RULE = ('place of the process start (28 places: run/$/% in setup, before-assert, assert, cleanup; -stdout-from in file / stdin = / env / equals; run text transformer, '
+RULE = ('place of the process start (32 places: run/$/% in setup, before-assert, assert, cleanup; -stdout-from in file / stdin = / env / equals; run text transformer, '
         'run text matcher, run file matcher; the action to check under the command-line, shell, file-interpreter and source-interpreter forms) x duration of the '
         'child relative to the timeout in force {T-1, T, T+1, never ends, never ends and ignores SIGTERM} x timeout history {default only, set before (T=1, 5), set after, none before, T then none, '
-        'none then T, set in an earlier phase, T then T2}; lifecycle states (running, timed-out, cleanup, ended) x place are the graph; plus a real-process slice '
+        'none then T, set in an earlier phase, T then T2; for the 5 places whose process starts later than the instruction naming it: set between the two (4 histories)}; lifecycle states (running, timed-out, cleanup, ended) x place are the graph; plus a real-process slice '
         '(8 places x {plain sleeper, SIGTERM-ignoring sleeper}); non-trivial = the child outlives the timeout or there is no timeout')
 ASSUMPTIONS = [
     'virtual clock: a child of duration d started with timeout t raises TimeoutExpired iff d > t, exactly as subprocess.call does',
@@ -54,6 +54,12 @@ PLACES = {
     'setup-dir-file-stdout-from': (('setup',), {'setup': ['dir dd = {\n file x.txt = -stdout-from % P\n}']}),
     'act-stdin-from-program': (('act', 'setup'), {'act': ['% atc\n   -stdin -stdout-from % P']}),
     'setup-program-symbol': (('setup',), {'setup': ['def program XS = % P', 'run @ XS arg']}),
+    # deferred starts: the instruction stands in [setup], the process is started later (the timeout in force is the one at the START)
+    'setup-def-program-used-in-assert': (('assert',), {'setup': ['def program XD = % P'], 'assert': ['run @ XD']}),
+    'setup-def-text-source-used-in-assert': (('assert',), {'setup': ['def text-source TS = -stdout-from % P'], 'assert': ['stdout ! equals @[TS]@']}),
+    'setup-def-text-matcher-used-in-assert': (('assert',), {'setup': ['def text-matcher TM = run % P'], 'assert': ['stdout @[TM]@']}),
+    'setup-def-text-transformer-used-in-before-assert': (('before-assert',), {'setup': ['def text-transformer TT = run % P'],
+                                                                           'before-assert': ["file t.txt = -contents-of -rel-result stdout -transformed-by TT"]}),
     'cleanup-file-stdout-from': (('cleanup',), {'cleanup': ['file cl.txt = -stdout-from % P']}),
     'cleanup-shell': (('cleanup',), {'cleanup': ['$ P']}),
     'cleanup-run': (('cleanup',), {'cleanup': ['run % P']}),
@@ -72,6 +78,15 @@ HISTORIES = {
     '1-then-7': ([('setup', 1), ('setup', 7)], 7),
     'same-phase-just-before': ([('same', 5)], 5),
 }
+# timeouts set AFTER the instruction that names the program but BEFORE the process is started (only for the deferred places)
+DEFERRED = ('setup-stdin-stdout-from', 'setup-def-program-used-in-assert', 'setup-def-text-source-used-in-assert', 'setup-def-text-matcher-used-in-assert',
+            'setup-def-text-transformer-used-in-before-assert')
+HISTORIES.update({
+    'post-1': ([('post', 1)], 1),
+    '1-then-post-20': ([('setup', 1), ('post', 20)], 20),
+    '5-then-post-none': ([('setup', 5), ('post', None)], None),
+    'none-then-post-5': ([('setup', None), ('post', 5)], 5),
+})
 DURS = ('T-1', 'T', 'T+1', 'inf', 'inf-ignore-term')
 
 
@@ -89,6 +104,8 @@ def cases(tier):
                 yield ('real', p, variant)
     for place in PLACES:
         for h in HISTORIES:
+            if 'post' in h and place not in DEFERRED:
+                continue
             for d in DURS:
                 yield ('virt', place, h, d)
 
@@ -108,6 +125,8 @@ def build(place, hist, prog):
             pre.append(line)
         elif where == 'after':
             ph['cleanup'].append(line)
+        elif where == 'post':
+            ph['setup'].append(line)  # right after the instruction of a deferred place (ph['setup'] holds only the place's lines here)
         elif where == 'same':
             if place_phase in ('act', 'conf'):
                 pre.append(line)
@@ -206,7 +225,7 @@ def run(case) -> Result:
     for c in seam.calls:
         if c in slow:
             continue
-        if any(w_ == 'same' for w_, _ in events):
+        if any(w_ in ('same', 'post') for w_, _ in events):
             continue
         if c['timeout'] != in_force:
             errs.append('process %s started with timeout=%s, in force: %s' % (c['name'], c['timeout'], in_force))
